@@ -342,9 +342,18 @@ impl Property for P {
             Tier::Quick => 6,
             Tier::Thorough => 12,
         };
+        let mut plain = mix;
+        plain.uni = 0;
+        plain.esc_ok = 0;
+        plain.esc_bad = 0;
+        plain.punct = 2;
+        plain.spaces = 0;
         let word = prop_oneof![
-            8 => gen::token_text(mix, n),
-            1 => gen::wild_string(8).prop_map(|s| s.replace('\n', "")),
+            80 => gen::token_text(mix, n),
+            10 => gen::wild_string(8).prop_map(|s| s.replace('\n', "")),
+            // long words (64 bytes and more), mixed and plain ASCII
+            2 => gen::log_count(60).prop_flat_map(move |k| gen::token_text(mix, k)),
+            2 => gen::log_count(40).prop_flat_map(move |k| gen::token_text(plain, k)),
         ];
         let limit = prop_oneof![
             12 => 0usize..=8,
